@@ -2,6 +2,7 @@ import UberjobModel.Lemmas.EnginePath
 import UberjobModel.Lemmas.EngineComplete
 import UberjobModel.Lemmas.Queues
 import UberjobModel.Lemmas.PQueue
+import UberjobModel.Lemmas.PQueueOrder
 import UberjobModel.Lemmas.GraphWF
 import UberjobModel.Lemmas.EngineExamples
 import UberjobModel.Lemmas.ExecNeeded
@@ -179,6 +180,19 @@ theorem C04_priority_get_perm (h : List Uberjob.PQueue.E) (v : Nat) (rest : List
 
 theorem C04_priority_get_none (h : List Uberjob.PQueue.E) : Uberjob.PQueue.get h = none ↔ h = [] :=
   Uberjob.PQueue.get_none h
+
+/-- Beyond what C04 needs: every state of the priority queue reachable from its constructor by `_put`s and `_get`s is a heap
+    (`HeapFrom 0`: no item has a smaller key than its parent) … -/
+theorem C04_priority_reachable_heap (prio : Nat → Int) (items : List Nat) (ops : List (Option Nat)) :
+    Uberjob.PQueue.HeapFrom 0 (ops.foldl (Uberjob.PQueue.stepQ prio) (Uberjob.PQueue.init prio items)) :=
+  Uberjob.PQueue.reach_heap prio items ops
+
+/-- … and on a heap `_get` hands out an item whose priority number is minimal among everything queued: the default
+    scheduler does follow `greedy.get_priority_mapping`, and the DONE sentinel (priority -1) overtakes every node. -/
+theorem C04_priority_get_min (h : List Uberjob.PQueue.E) (v : Nat) (rest : List Uberjob.PQueue.E)
+    (hh : Uberjob.PQueue.HeapFrom 0 h) (hg : Uberjob.PQueue.get h = some (v, rest)) :
+    Uberjob.PQueue.HeapFrom 0 rest ∧ ∃ k, (k, v) ∈ h ∧ ∀ y ∈ rest, k ≤ y.1 :=
+  Uberjob.PQueue.get_heap h v rest hh hg
 
 /-- The queue classes and `create_queue` still have the transcribed shape. -/
 theorem C04_queue_shapes : Uberjob.Gen.Queues.facts.ok = true := by decide
